@@ -669,7 +669,7 @@ func (c *Ctx) term1(v ssa.Value) *Term {
 		return mk("fieldaddr", FieldName(st.Field(v.Field)), v, c.term(v.X))
 	case *ssa.Field:
 		st := v.X.Type().Underlying().(*types.Struct)
-		return mk("field", FieldName(st.Field(v.Field)), v, c.term(v.X))
+		return simplify(mk("field", FieldName(st.Field(v.Field)), v, c.term(v.X)))
 	case *ssa.IndexAddr:
 		return mk("elemaddr", "", v, c.term(v.X), c.term(v.Index))
 	case *ssa.Index:
@@ -1005,11 +1005,17 @@ func (c *Ctx) loadTerm(v *ssa.UnOp) *Term {
 					break
 				}
 			}
-			if val := c.logStoreBefore(lb, end, addr.String(), cell); val != nil {
+			if val := c.logStoreBefore(lb, end, addr.String(), cell); val != nil && val != freshCell {
 				return val
+			} else if val == freshCell && addr.Op != "fieldaddr" {
+				return zeroTerm(v.Type(), v)
 			}
 			if addr.Op == "fieldaddr" {
-				if whole := c.logStoreBefore(lb, end, addr.Args[0].String(), cell); whole != nil {
+				whole := c.logStoreBefore(lb, end, addr.Args[0].String(), cell)
+				if whole == freshCell {
+					return zeroTerm(v.Type(), v)
+				}
+				if whole != nil {
 					return simplify(mk("field", addr.Name, v, whole))
 				}
 			}
@@ -1019,6 +1025,9 @@ func (c *Ctx) loadTerm(v *ssa.UnOp) *Term {
 }
 
 var spilledCache = map[*ssa.Alloc]ssa.Value{}
+
+// SpilledParam is spilledParam for the rules.
+func SpilledParam(a *ssa.Alloc) ssa.Value { return spilledParam(a) }
 
 // spilledParam returns the parameter whose value the cell a holds for the whole life of the activation, or nil.
 func spilledParam(a *ssa.Alloc) ssa.Value {
@@ -1089,6 +1098,10 @@ func baseAlloc(addr *Term) *Term {
 	return nil
 }
 
+// freshCell is what logStoreBefore answers when, walking back, it meets the allocation of the variable before
+// any store to the address: the variable still holds its zero value.
+var freshCell = &Term{Op: "const", Name: "zero"}
+
 // logStoreBefore looks, on the whole path (all activations, in execution order) backwards from the program point
 // before instruction end0 of block lb of this activation, for the latest store to the address rendered addr, whose
 // base is the local cell cell (of any activation). It gives up (nil) when something in between may have written
@@ -1134,6 +1147,11 @@ func (c *Ctx) logStoreBefore(lb *ssa.BasicBlock, end0 int, addr string, cell *Te
 				if len(at.String()) < len(addr) {
 					return nil, false // the whole (or an outer part) was stored: the caller asks for it separately
 				}
+			}
+		case *ssa.Alloc:
+			// the variable itself comes into being here: nothing was stored yet, it holds its zero value
+			if in == root && e.ca.term(root).String() == cellKey {
+				return freshCell, true
 			}
 		case *ssa.Defer:
 			// runs at RunDefers
